@@ -109,3 +109,11 @@ Qed.
 
 Lemma map_repeat {A B} (f : A -> B) a m : map f (repeat a m) = repeat (f a) m.
 Proof. induction m; simpl; [reflexivity|now f_equal]. Qed.
+
+Lemma NoDup_app_l {T} (l1 l2 : list T) : NoDup (l1 ++ l2) -> NoDup l1.
+Proof.
+  induction l1 as [|x l1 IH]; intros H; [constructor|]. simpl in H. inversion H as [|? ? Hn Hr]; subst.
+  constructor; [|now apply IH]. intros C. apply Hn. apply in_or_app. now left.
+Qed.
+Lemma NoDup_app_r {T} (l1 l2 : list T) : NoDup (l1 ++ l2) -> NoDup l2.
+Proof. induction l1 as [|x l1 IH]; intros H; [exact H|]. simpl in H. inversion H; subst. now apply IH. Qed.
